@@ -59,6 +59,13 @@ struct Probe {
     /// imports written in the then-branch of an `if` whose else-branch holds the use:
     /// they must resolve, but the use must not see them
     sibling_imports: Vec<Vec<String>>,
+    /// how the block that holds the use is written (plain block, `if`, match arm, loop body,
+    /// block ending in a `match`, ...)
+    shape: u8,
+    /// imports written in a nested block next to the use (which is outside that block): they
+    /// must resolve, but the use must not see them; and how that block is written
+    decoy: Vec<Vec<String>>,
+    decoy_shape: u8,
 }
 
 struct Tree {
@@ -310,7 +317,22 @@ fn decode(ctl: &[u8]) -> Tree {
             vec![]
         };
         let nested_use = nested_use || !sibling_imports.is_empty();
-        probes.push(Probe { module, block_imports, import_after_use, local, path, nested_use, sibling_imports });
+        let shape = c.byte();
+        let decoy = if !nested_use && c.chance(110) {
+            // preferably something that has the name of the reference but lives elsewhere
+            let mut best: Vec<String> = Vec::new();
+            for _ in 0..4 {
+                let q = gen_ref(&mut c, &mods, module, Some(want_fn));
+                if q.len() >= 2 && (best.is_empty() || q.last() == path.last()) {
+                    best = q;
+                }
+            }
+            if best.len() >= 2 { vec![best] } else { vec![] }
+        } else {
+            vec![]
+        };
+        let decoy_shape = c.byte();
+        probes.push(Probe { module, block_imports, import_after_use, local, path, nested_use, sibling_imports, shape, decoy, decoy_shape });
     }
     Tree { mods, probes }
 }
@@ -435,7 +457,7 @@ impl Tree {
                 // import in the nested block while the use is outside: simply not visible
             }
         }
-        for imp in &p.sibling_imports {
+        for imp in p.sibling_imports.iter().chain(p.decoy.iter()) {
             self.resolve_path(m, imp, &|n| self.block_lookup_no_imports(p, n, 0))?;
         }
         self.resolve_path(m, &p.path, &|n| lookup(n, from))
@@ -493,6 +515,22 @@ fn render_module(t: &Tree, m: usize) -> String {
         if !p.import_after_use {
             let _ = writeln!(s, "    {}", imports_at(0));
         }
+        let zmatch = |u: &str| format!("match Option.Some(0) {{ Some(z) => {u} + z, None => 0 }}");
+        let decoy_block = if p.decoy.is_empty() {
+            String::new()
+        } else {
+            let d: Vec<String> = p.decoy.iter().map(|q| format!("import {};", q.join("."))).collect();
+            let d = d.join(" ");
+            match p.decoy_shape % 5 {
+                0 => format!("    {{ {d} 0 }};\n"),
+                1 => format!("    if true {{ {d} }}\n"),
+                2 => format!("    let zd = {{ {d} 5 }};\n"),
+                3 => format!("    for zq in [0] {{ {d} }}\n"),
+                _ => format!("    {{ {d} }};\n"),
+            }
+        };
+        let decoy_first = p.decoy_shape / 5 % 2 == 0;
+        let mut tail = "r".to_string();
         if !p.sibling_imports.is_empty() {
             let sib: Vec<String> = p.sibling_imports.iter().map(|q| format!("import {};", q.join("."))).collect();
             let _ = writeln!(s, "    let r = if false {{");
@@ -509,23 +547,83 @@ fn render_module(t: &Tree, m: usize) -> String {
             let _ = writeln!(s, "        q");
             let _ = writeln!(s, "    }};");
         } else if p.nested_use {
-            let _ = writeln!(s, "    let r = if true {{");
-            if !p.import_after_use {
-                let _ = writeln!(s, "        {}", imports_at(1));
+            let i1 = imports_at(1);
+            match p.shape % 6 {
+                1 => {
+                    // plain block without a `let`
+                    let _ = writeln!(s, "    let r = {{ {i1} {use_expr} }};");
+                }
+                2 => {
+                    // block whose value is a match
+                    let _ = writeln!(s, "    let r = {{\n        {i1}\n        {}\n    }};", zmatch(&use_expr));
+                }
+                3 => {
+                    // match arm body
+                    let _ = writeln!(s, "    let r = match Option.Some(0) {{\n        Some(z) => {{ {i1} {use_expr} + z }}\n        None => 0,\n    }};");
+                }
+                4 => {
+                    let _ = writeln!(s, "    let r = 0;\n    for z in [0] {{");
+                    if !p.import_after_use {
+                        let _ = writeln!(s, "        {i1}");
+                    }
+                    let _ = writeln!(s, "        r = {use_expr} + z;");
+                    if p.import_after_use {
+                        let _ = writeln!(s, "        {i1}");
+                    }
+                    let _ = writeln!(s, "    }}");
+                }
+                5 => {
+                    let _ = writeln!(s, "    let r = 0;\n    let zw = 0;\n    while zw < 1 {{");
+                    if !p.import_after_use {
+                        let _ = writeln!(s, "        {i1}");
+                    }
+                    let _ = writeln!(s, "        r = {use_expr};\n        zw = zw + 1;");
+                    if p.import_after_use {
+                        let _ = writeln!(s, "        {i1}");
+                    }
+                    let _ = writeln!(s, "    }}");
+                }
+                _ => {
+                    let _ = writeln!(s, "    let r = if true {{");
+                    if !p.import_after_use {
+                        let _ = writeln!(s, "        {i1}");
+                    }
+                    let _ = writeln!(s, "        let q = {use_expr};");
+                    if p.import_after_use {
+                        let _ = writeln!(s, "        {i1}");
+                    }
+                    let _ = writeln!(s, "        q");
+                    let _ = writeln!(s, "    }} else {{ 0 }};");
+                }
             }
-            let _ = writeln!(s, "        let q = {use_expr};");
-            if p.import_after_use {
-                let _ = writeln!(s, "        {}", imports_at(1));
-            }
-            let _ = writeln!(s, "        q");
-            let _ = writeln!(s, "    }} else {{ 0 }};");
         } else {
-            let _ = writeln!(s, "    let r = {use_expr};");
+            if decoy_first {
+                s.push_str(&decoy_block);
+            }
+            match p.shape % 4 {
+                // the use is the value of the function body itself
+                1 if !p.import_after_use => tail = use_expr.clone(),
+                2 if !p.import_after_use => tail = zmatch(&use_expr),
+                3 if !p.import_after_use => tail = format!("if true {{ {use_expr} }} else {{ 0 }}"),
+                _ => {
+                    let _ = writeln!(s, "    let r = {use_expr};");
+                }
+            }
+            if !decoy_first {
+                if tail == "r" {
+                    s.push_str(&decoy_block);
+                } else {
+                    // nothing may follow the value of the body: the block goes in front
+                    let at = s.rfind("\nfn probe_").map(|k| k + 1).unwrap_or(0);
+                    let head_end = s[at..].find('\n').map(|k| at + k + 1).unwrap_or(s.len());
+                    s.insert_str(head_end, &decoy_block);
+                }
+            }
         }
         if p.import_after_use {
             let _ = writeln!(s, "    {}", imports_at(0));
         }
-        let _ = writeln!(s, "    r\n}}");
+        let _ = writeln!(s, "    {tail}\n}}");
     }
     s
 }
